@@ -17,14 +17,25 @@ import (
 
 var fillerIdents = []string{"aa", "bb", "cc", "nn", "pq", "xs", "err2", "ctx2", "Val", "Typ"}
 
+// patternNames holds, while an instance of a pattern is being built, the
+// names of that pattern's metavariables. Code in a Go file may well contain
+// identifiers spelled like a metavariable of the patch; there they are
+// ordinary identifiers, so one filler identifier in six is drawn from them
+// (a matcher that interprets captured code in the scope of the patch's
+// metavariables is caught by this).
+var patternNames []string
+
 // DrawIdent draws an identifier filler.
 func DrawIdent(t *rapid.T, label string) *ast.Ident {
+	if len(patternNames) > 0 && rapid.IntRange(0, 5).Draw(t, label+"mv") == 0 {
+		return &ast.Ident{Name: patternNames[rapid.IntRange(0, len(patternNames)-1).Draw(t, label+"mvn")]}
+	}
 	return &ast.Ident{Name: fillerIdents[rapid.IntRange(0, len(fillerIdents)-1).Draw(t, label)]}
 }
 
 // DrawValueExpr draws a small value expression.
 func DrawValueExpr(t *rapid.T, label string, depth int) ast.Expr {
-	max := 13
+	max := 20
 	if depth <= 0 {
 		max = 3
 	}
@@ -70,8 +81,69 @@ func DrawValueExpr(t *rapid.T, label string, depth int) ast.Expr {
 	case 12:
 		return &ast.FuncLit{Type: &ast.FuncType{Func: 1, Params: &ast.FieldList{Opening: 1, Closing: 1}}, Body: &ast.BlockStmt{Lbrace: 1, Rbrace: 1,
 			List: []ast.Stmt{&ast.ExprStmt{X: &ast.CallExpr{Fun: DrawIdent(t, label+"fl"), Lparen: 1, Rparen: 1}}}}}
-	default:
+	case 13:
 		return &ast.TypeAssertExpr{X: DrawIdent(t, label+"ta"), Type: DrawIdent(t, label+"tt"), Lparen: 1, Rparen: 1}
+	case 14:
+		// generic instantiation with several type arguments
+		return &ast.IndexListExpr{X: DrawIdent(t, label+"gx"), Lbrack: 1, Rbrack: 1, Indices: []ast.Expr{DrawTypeExpr(t, label+"g0", 0), DrawTypeExpr(t, label+"g1", depth-1)}}
+	case 15:
+		se := &ast.SliceExpr{X: DrawIdent(t, label+"sx"), Lbrack: 1, Rbrack: 1}
+		switch rapid.IntRange(0, 3).Draw(t, label+"sk") {
+		case 0:
+			se.Low = DrawValueExpr(t, label+"sl", 0)
+		case 1:
+			se.High = DrawValueExpr(t, label+"sh", 0)
+		case 2:
+			se.Low, se.High = DrawValueExpr(t, label+"sl", 0), DrawValueExpr(t, label+"sh", 0)
+		default:
+			se.High, se.Max, se.Slice3 = DrawValueExpr(t, label+"sh", 0), DrawValueExpr(t, label+"sm", 0), true
+		}
+		return se
+	case 16:
+		lits := []ast.BasicLit{{Kind: token.FLOAT, Value: "1.5"}, {Kind: token.CHAR, Value: "'c'"}, {Kind: token.IMAG, Value: "2i"}, {Kind: token.STRING, Value: "`raw`"}, {Kind: token.INT, Value: "0x1f"}}
+		l := lits[rapid.IntRange(0, len(lits)-1).Draw(t, label+"lit")]
+		return &l
+	case 17:
+		// keyed composite literal of a composite type
+		var typ ast.Expr
+		switch rapid.IntRange(0, 3).Draw(t, label+"ckt") {
+		case 0:
+			typ = &ast.ArrayType{Lbrack: 1, Elt: DrawIdent(t, label+"cke")}
+		case 1:
+			typ = &ast.MapType{Map: 1, Key: DrawIdent(t, label+"ckk"), Value: DrawIdent(t, label+"ckv")}
+		case 2:
+			typ = &ast.SelectorExpr{X: DrawIdent(t, label+"ckp"), Sel: DrawIdent(t, label+"cks")}
+		default:
+			typ = &ast.StructType{Struct: 1, Fields: &ast.FieldList{Opening: 1, Closing: 1}}
+		}
+		cl := &ast.CompositeLit{Type: typ, Lbrace: 1, Rbrace: 1}
+		if _, isStruct := typ.(*ast.StructType); !isStruct {
+			n := rapid.IntRange(0, 2).Draw(t, label+"ckn")
+			for i := 0; i < n; i++ {
+				cl.Elts = append(cl.Elts, &ast.KeyValueExpr{Key: DrawValueExpr(t, fmt.Sprintf("%skk%d", label, i), 0), Colon: 1, Value: DrawValueExpr(t, fmt.Sprintf("%skv%d", label, i), depth-1)})
+			}
+		}
+		return cl
+	case 18:
+		// method call / conversion / call of a parenthesised or literal function
+		var fun ast.Expr
+		switch rapid.IntRange(0, 3).Draw(t, label+"cf") {
+		case 0:
+			fun = &ast.SelectorExpr{X: DrawValueExpr(t, label+"cfx", depth-1), Sel: DrawIdent(t, label+"cfs")}
+		case 1:
+			fun = &ast.ParenExpr{Lparen: 1, Rparen: 1, X: &ast.StarExpr{Star: 1, X: DrawIdent(t, label+"cfp")}}
+		case 2:
+			fun = &ast.ArrayType{Lbrack: 1, Elt: DrawIdent(t, label+"cfe")}
+		default:
+			fun = &ast.IndexExpr{X: DrawIdent(t, label+"cfg"), Lbrack: 1, Rbrack: 1, Index: DrawIdent(t, label+"cfi")}
+		}
+		return &ast.CallExpr{Fun: fun, Lparen: 1, Rparen: 1, Args: []ast.Expr{DrawValueExpr(t, label+"cfa", depth-1)}}
+	case 19:
+		return &ast.FuncLit{Type: &ast.FuncType{Func: 1, Params: &ast.FieldList{Opening: 1, Closing: 1, List: []*ast.Field{{Names: []*ast.Ident{DrawIdent(t, label+"fpn")}, Type: DrawTypeExpr(t, label+"fpt", 1)}}},
+			Results: &ast.FieldList{List: []*ast.Field{{Type: DrawIdent(t, label+"frt")}}}},
+			Body: &ast.BlockStmt{Lbrace: 1, Rbrace: 1, List: []ast.Stmt{&ast.ReturnStmt{Return: 1, Results: []ast.Expr{DrawValueExpr(t, label+"frv", depth-1)}}}}}
+	default:
+		return &ast.TypeAssertExpr{X: DrawValueExpr(t, label+"tax", depth-1), Type: DrawTypeExpr(t, label+"tat", 1), Lparen: 1, Rparen: 1}
 	}
 }
 
@@ -118,6 +190,8 @@ type Instance struct {
 // Instantiate builds an instance of the minus pattern with drawn fillers.
 func Instantiate(t *rapid.T, m *Mined, label string) *Instance {
 	inst := &Instance{Fillers: map[ast.Node]bool{}, Binding: map[string]ast.Node{}}
+	patternNames = m.SortedHoles()
+	defer func() { patternNames = nil }()
 	root := Clone(m.Minus, false)
 	// holes
 	for _, name := range m.SortedHoles() {
